@@ -5,6 +5,7 @@
 //
 //	ms <op>...   ops: b | a<k> | r<k> | fa | f:<id,..> | m:<id,..> | s:<id,..> | c
 //	tx <op>...   ops: N | T<j>:<m> | Z<j>:<m> | C<j> | R<j> | L<j>
+//	st <writers> <readers> <batches>   concurrent smoke run with the real loops (supporting exploration only)
 //
 // Output: one dump per op, joined by " | ".
 package main
@@ -241,6 +242,21 @@ func handle(f []string) string {
 		return runMeasure(f[1:])
 	case "tx":
 		return runTxn(f[1:])
+	case "st":
+		// supporting exploration: st <writers> <readers> <batches per writer>
+		if len(f) != 4 {
+			return "bad-op"
+		}
+		w, _ := strconv.Atoi(f[1])
+		r, _ := strconv.Atoi(f[2])
+		b, _ := strconv.Atoi(f[3])
+		caseNo++
+		root := filepath.Join(scratch, fmt.Sprintf("s%d", caseNo))
+		if err := os.MkdirAll(root, 0o755); err != nil {
+			panic(err)
+		}
+		defer os.RemoveAll(root)
+		return measure.VC05Stress(root, w, r, b)
 	}
 	return "bad-op"
 }
